@@ -149,6 +149,24 @@ fn scenario_c15(args: &[String]) {
     solve_and_print(u, reqs, false);
 }
 
+/// C15, second witness shape: a first requirement matches ALL n versions, so the encoder registers every candidate
+/// with the at-most-one tracker in sorted order (highest version first: discovery position k = version n-1-k); the
+/// further requirements select the candidates at the given discovery POSITIONS.
+fn scenario_c15r(args: &[String]) {
+    let n: u32 = args[0].parse().unwrap();
+    let picks: Vec<u32> = args[1..].iter().map(|s| s.parse().unwrap()).collect();
+    let mut u = Uni::default();
+    for v in 0..n {
+        u.solvable("a", v);
+    }
+    let all: Vec<u32> = (0..n).collect();
+    let mut reqs: Vec<Requirement> = vec![Requirement::Single(u.vs("a", &all))];
+    for &p in &picks {
+        reqs.push(Requirement::Single(u.vs("a", &[n - 1 - p])));
+    }
+    solve_and_print(u, reqs, false);
+}
+
 /// C04/F3: a solvable whose `constrains` entry excludes itself (a=1 constrains a in {2}).
 fn scenario_selfcons(_args: &[String]) {
     let mut u = Uni::default();
@@ -196,6 +214,7 @@ fn main() {
     let args: Vec<String> = std::env::args().skip(1).collect();
     match args[0].as_str() {
         "c15" => scenario_c15(&args[1..]),
+        "c15r" => scenario_c15r(&args[1..]),
         "selfcons" => scenario_selfcons(&args[1..]),
         "selfcons_preferred" => scenario_selfcons_preferred(&args[1..]),
         "hintedfalse" => scenario_hintedfalse(&args[1..]),
